@@ -205,8 +205,8 @@ func LoadEngine(cfg Config, verif string) (*Engine, error) {
 // runInit executes package initialisers concretely, once.
 func (e *Engine) runInit(roots []string) (err error) {
 	e.initCtx = NewTermCtx()
-	s := &State{eng: e, ctx: e.initCtx, initPhase: true, overlay: map[*Object]*Object{}, backedges: map[*ssa.BasicBlock]int{}, finfo: map[*Term]*FInfo{}}
-	s.run = &PathRun{inputNames: map[string]bool{}, covers: map[string]bool{}, tags: map[string]bool{}, bounds: map[string]int64{}}
+	s := &State{eng: e, ctx: e.initCtx, initPhase: true, overlay: map[*Object]*Object{}, backedges: map[*ssa.BasicBlock]int{}, finfo: map[*Term]*FInfo{}, nonNaN: map[*Term]bool{}, keyMemo: map[*Term]*Term{}}
+	s.run = &PathRun{inputNames: map[string]bool{}, kInputs: map[string]bool{}, covers: map[string]bool{}, tags: map[string]bool{}, bounds: map[string]int64{}}
 	// globals of initialisable packages
 	var paths []string
 	for path := range e.pkgs {
@@ -494,8 +494,8 @@ func (c *TermCtx) Clone() *TermCtx {
 
 func (e *Engine) runPath(ctx *TermCtx, solver *Solver, fn *ssa.Function, spec HarnessSpec, prefix []Decision) {
 	solver.Reset()
-	run := &PathRun{prefix: prefix, solver: solver, inputNames: map[string]bool{}, covers: map[string]bool{}, tags: map[string]bool{}, bounds: map[string]int64{}, harness: spec.Func}
-	s := &State{eng: e, ctx: ctx, run: run, overlay: map[*Object]*Object{}, backedges: map[*ssa.BasicBlock]int{}, finfo: map[*Term]*FInfo{}, nextObj: e.initObjs}
+	run := &PathRun{prefix: prefix, solver: solver, inputNames: map[string]bool{}, kInputs: map[string]bool{}, covers: map[string]bool{}, tags: map[string]bool{}, bounds: map[string]int64{}, harness: spec.Func}
+	s := &State{eng: e, ctx: ctx, run: run, overlay: map[*Object]*Object{}, backedges: map[*ssa.BasicBlock]int{}, finfo: map[*Term]*FInfo{}, nextObj: e.initObjs, nonNaN: map[*Term]bool{}, keyMemo: map[*Term]*Term{}}
 	func() {
 		defer func() {
 			if r := recover(); r != nil {
